@@ -13,8 +13,8 @@ Inductive c13case :=
 | KCrit (c : stopcrit) (Ulb Uub : list float) (N : nat) (γ : float) (u g p : list float) (eps : option float)
 (* the reported step and its scalar products *)
 | KProx (Ulb Uub : list float) (N : nat) (γ : float) (u g uh p : list float) (pp : float)
-(* exit status from (tol, ε, k, max_iter, no_progress, max_no_progress, stop requested) *)
-| KStat (tol eps : float) (k max_iter np mnp : nat) (sr : bool) (st : status)
+(* exit status from (tol, ε, time exceeded, k, max_iter, no_progress, max_no_progress, stop requested) *)
+| KStat (tol eps : float) (te : bool) (k max_iter np mnp : nat) (sr : bool) (st : status)
 (* number of free input components reported with the direction *)
 | KNJ (Ulb Uub : list float) (N : nat) (γ : float) (u g : list float) (nJ : nat)
 (* write_solution rows *)
@@ -33,7 +33,7 @@ Definition chk13 (c : c13case) : bool :=
   | KProx Ulb Uub N γ u g uh p pp =>
       let '(uh', p', pp', _) := ocp_prox (obs Ulb) (oubs Uub) N γ u g in
       vfeq uh' uh && vfeq p' p && feq pp' pp
-  | KStat tol eps k mi np mnp sr st => status_eqb (stop_status_ocp tol eps false k mi np mnp sr) st
+  | KStat tol eps te k mi np mnp sr st => status_eqb (stop_status_ocp tol eps te k mi np mnp sr) st
   | KNJ Ulb Uub N γ u g nJ => Nat.eqb (ocp_nJ (obs Ulb) (oubs Uub) N γ u g) nJ
   | KWrite lb ub c y μ y_out e_out =>
       let r := ocp_write (obs lb) (oubs ub) c y μ in
